@@ -63,14 +63,6 @@ func selfTest(c *lib.Ctx, dir string) error {
 	good2 := newHB().inv(1, op("AddCmd", 0, 0, a...)).inv(2, op("Cmd", 1, 0)).inv(3, op("Cmd", 1, 0)).inv(4, op("DelCmd", 1, 0)).
 		res(2, rnone()).res(3, rt(a...)).res(1, rn(1)).res(4, emptyRes()).
 		inv(2, op("Cmd", 1, 0)).res(2, rnone()).inv(3, op("NextCmdSeq", 0, 0)).res(3, rn(2))
-	goodEvs := append(History{Events: good1.evs}.Rebased(0), History{Events: good2.evs}.Rebased(len(good1.evs))...)
-	v, err := lib.ValidateTrace(c, "TraceDaemonLin(selftest good)", dir, "TraceDaemonLin", goodEvs, 5*time.Minute)
-	if err != nil {
-		return err
-	}
-	if !v.Accepted {
-		return lib.Infra("self-test: the acceptor rejects a linearizable history (matched %d of %d events)", v.HighWater, v.Len)
-	}
 	bads := map[string]*hb{
 		// the add completed before the read started, yet the read does not see it
 		"lost add": newHB().inv(1, op("AddCmd", 0, 0, a...)).res(1, rn(1)).inv(2, op("CmdsWithSeq", 0, -1)).res(2, rlist()),
@@ -80,12 +72,20 @@ func selfTest(c *lib.Ctx, dir string) error {
 		"stale read": newHB().inv(1, op("AddCmd", 0, 0, a...)).res(1, rn(1)).inv(2, op("NextCmdSeq", 0, 0)).res(2, rn(1)),
 	}
 	for name, h := range bads {
-		v, err := lib.ValidateTrace(c, "TraceDaemonLin(selftest "+name+")", dir, "TraceDaemonLin", h.evs, 5*time.Minute)
+		// the two linearizable histories come first in the same trace: they must be matched completely
+		// (high-water mark inside the third history), the non-linearizable one must not
+		evs := append(History{Events: good1.evs}.Rebased(0), History{Events: good2.evs}.Rebased(len(good1.evs))...)
+		goodLen := len(evs)
+		evs = append(evs, History{Events: h.evs}.Rebased(goodLen)...)
+		v, err := lib.ValidateTrace(c, "TraceDaemonLin(selftest "+name+")", dir, "TraceDaemonLin", evs, 8*time.Minute)
 		if err != nil {
 			return err
 		}
 		if v.Accepted {
 			return lib.Infra("self-test: the acceptor accepts the non-linearizable history %q", name)
+		}
+		if v.HighWater < goodLen+1 {
+			return lib.Infra("self-test: the acceptor rejects a linearizable history (matched %d of %d events)", v.HighWater, goodLen)
 		}
 		if name == "duplicate seq" {
 			dup := false
